@@ -1,5 +1,9 @@
 //! wpmon: runtime monitors for pkhuong/woodpile.
 pub mod ctx;
 pub mod engines;
+pub mod expose;
+pub mod gen;
+pub mod hcobs_ref;
 pub mod json;
 pub mod prng;
+pub mod reader;
